@@ -549,6 +549,37 @@ fn readonly() -> i32 {
 /// same update history twice (second run with read-only calls interleaved): byte-identical files after close
 fn determ() -> i32 {
     let res = std::panic::catch_unwind(|| -> Result<(), String> {
+        // (a) short targeted histories: every kind of read-only call after EVERY update in run 1, none in run 0; histories without
+        //     deletes first (growing / shrinking overwrites only), then with deletes; also a close-and-reopen in the middle of run 1
+        for variant in 0..4u64 {
+            let mut images: Vec<Vec<Vec<u8>>> = Vec::new();
+            for run in 0..2 {
+                let dir = tmpdir(&format!("detA{run}"));
+                let params = FileDbParams { buckets_size: HashBucketsParam::BucketsSize(16), ..Default::default() };
+                let mut ops: Vec<(String, Option<usize>)> = Vec::new();
+                let lens = [10usize, 40, 10, 100, 3, 300, 40, 1200, 10, 2000, 100];
+                for i in 0..14usize { ops.push((format!("k{}", i % 5), Some(lens[(i * 3 + variant as usize) % lens.len()]))); }
+                if variant >= 2 { ops.insert(6, ("k1".to_string(), None)); ops.push(("k3".to_string(), None)); }
+                for i in 0..6usize { ops.push((format!("n{i}"), Some(lens[(i + variant as usize) % lens.len()]))); }
+                let mut db = abyssiniandb::open_file(&dir).unwrap();
+                let mut m = db.db_map_string_with_params("m", params.clone()).unwrap();
+                for (j, (k, l)) in ops.iter().enumerate() {
+                    match l { Some(l) => m.put(k, &vec![j as u8; *l]).unwrap(), None => { let _ = m.delete(k).unwrap(); } }
+                    if run == 1 {
+                        let _ = m.get(k).unwrap(); let _ = m.includes_key("zz").unwrap(); let _ = m.len().unwrap(); let _: Vec<_> = m.iter().collect();
+                        let _ = m.count_of_free_value_piece().unwrap(); let _ = m.count_of_free_key_piece().unwrap();
+                        let _ = m.value_length_stats().unwrap(); let _ = m.key_piece_size_stats().unwrap(); let _ = m.htx_filling_rate_per_mill().unwrap();
+                        if variant % 2 == 1 && j == ops.len() / 2 { drop(m); drop(db); db = abyssiniandb::open_file(&dir).unwrap(); m = db.db_map_string_with_params("m", params.clone()).unwrap(); }
+                    }
+                }
+                drop(m); drop(db);
+                images.push(["key", "val", "htx"].iter().map(|e| std::fs::read(dir.join(format!("m.{e}"))).unwrap()).collect());
+                let _ = std::fs::remove_dir_all(&dir);
+            }
+            for (i, e) in ["key", "val", "htx"].iter().enumerate() {
+                if images[0][i] != images[1][i] { return Err(format!("targeted history {variant}: m.{e} differs when read-only calls{} are interleaved ({} vs {} bytes)", if variant % 2 == 1 { " and a close/reopen" } else { "" }, images[0][i].len(), images[1][i].len())); }
+            }
+        }
         for (seed, nb) in [(3u64, 8u64), (4, 64), (5, 1024)] {
             let mut images: Vec<Vec<Vec<u8>>> = Vec::new();
             for run in 0..2 {
